@@ -605,9 +605,16 @@ def run_gae(case, ctx):
                 # ---- model
                 wts = [] if npar == 0 else [fr(v) for v in rank_weights(npar)]
                 ext = "-"
-                adam_model_first = okind == "adam" and adam_fresh
+                # Adam's first step after a reset is computed by the model itself -- unless some coordinate of the
+                # ascent gradient is (nearly) zero: there the closed form is steep (slope lr/eps'), the exact rational
+                # and the rounded float gradient give visibly different steps, and the model's theta would drift away
+                # from the implementation's; such steps are supplied like every later Adam step
+                adam_model_first = okind == "adam" and adam_fresh and \
+                    (eff is None or all(abs(e) >= Fraction(1, 1000) for e in eff))
+                if okind == "adam" and adam_fresh and not adam_model_first:
+                    ctx.count("gae:adam-first-step-supplied(tie-zone)")
                 if adam_model_first:
-                    # Adam's first step after a reset: the model computes it itself (closed form with the L2 term)
+                    # the model computes it itself (closed form with the L2 term)
                     ext = f"adam1:{q(Fraction(lr))}:{q(Fraction(l2))}:{q(ADAM_EPS_PRIME)}"
                 elif okind == "adam":
                     ext = rowtok(frow(th1))
@@ -643,12 +650,7 @@ def run_gae(case, ctx):
                 elif adam_model_first and have_grad and npar > 0 and em.restarts == rst0:
                     # closed form vs float Adam: continuous except near a vanishing gradient (tie zone excluded)
                     for k in range(n):
-                        if eff[k] != 0 and abs(eff[k]) < Fraction(1, 1000):
-                            ctx.count("gae:adam-coordinate-in-tie-zone")
-                            continue
-                        # sensitivity of theta + lr*e/(|e| + eps') to the rounding of e: at most lr*delta/eps'
-                        slack = Fraction(lr) * Fraction(float(adam_delta[k])) / ADAM_EPS_PRIME if eff[k] == 0 else 0
-                        if abs(fr(th1[k]) - mth[k]) > Fraction(1, 10**9) * max(1, abs(mth[k])) + slack:
+                        if abs(fr(th1[k]) - mth[k]) > Fraction(1, 10**9) * max(1, abs(mth[k])):
                             return Failure("corr", f"{where}: first Adam step theta[{k}] impl={th1[k]!r} "
                                            f"model={float(mth[k])!r} (theta + lr*e/(|e| + eps'), e = mean - theta - l2*theta)")
                     ctx.count("gae:adam-first-step-vs-model")
